@@ -155,7 +155,13 @@ def run_scenario_file(exes, scn_path, workdir, impl=True):
     return res
 
 
-def confirm(exes, scn_text, pid, workdir):
+def twin_verdict(res, eager_sid):
+    """C12, verdict level: the eager twin is free of contradictions, another schedule of the same scenario is not."""
+    sids = {b["sid"] for b in res["mon"]["bad"]}
+    return bool(sids) and eager_sid not in sids
+
+
+def confirm(exes, scn_text, pid, workdir, eager_sid=None):
     """A violation is reported only if the scenario alone reproduces it (twice)."""
     p = os.path.join(workdir, "confirm.scn")
     open(p, "w").write(scn_text)
@@ -163,7 +169,8 @@ def confirm(exes, scn_text, pid, workdir):
     for _ in range(2):
         res = run_scenario_file(exes, p, workdir)
         if any(has_tag(b, pid) for b in res["mon"]["bad"]) or (pid in ("C12", "C08") and conf_compare([os.path.join(workdir, "replay.ndjson")])) \
-                or (pid == "C20" and hist_compare([os.path.join(workdir, "replay.ndjson")])):
+                or (pid == "C20" and hist_compare([os.path.join(workdir, "replay.ndjson")])) \
+                or (pid == "C12" and eager_sid is not None and twin_verdict(res, eager_sid)):
             n += 1
     return n == 2
 
@@ -260,6 +267,27 @@ def check_property(pid, tier, seed):
                 if (cb["ref_scn"], cb["ref_sid"]) in bad_sids:
                     continue               # the eager twin itself misbehaves: not a statement about schedules
                 bads.append(cb)
+        if pid == "C12":
+            # verdict-level twin comparison (events included): stimuli of the fam_sched twins sit at schedule-independent points (before a line is fed,
+            # or inside handlers), so a contradiction that only a non-eager schedule shows is a dependence on the readiness schedule
+            scn_of = {sid_: j["scn"] for j in batches for sid_ in j["sids"]}
+            by_sid = {}
+            for b in bads:
+                by_sid.setdefault(b["sid"], []).append(b)
+            twins = {}
+            for sid_, m_ in meta.items():
+                if m_.get("family") == "fam_sched" and "conf_key" in m_:
+                    twins.setdefault(m_["conf_key"], []).append(sid_)
+            for key_, sids_ in twins.items():
+                eager = [x for x in sids_ if tuple(meta[x]["sig"][2:4]) == (0, 0)]
+                if not eager or any(x in by_sid for x in eager):
+                    continue
+                for x in sids_:
+                    if x in eager or x not in by_sid:
+                        continue
+                    b0 = by_sid[x][0]
+                    bads.append({"p": "C12", "sid": x, "at": b0["at"], "scn": scn_of[x], "ref_scn": scn_of[eager[0]], "ref_sid": eager[0], "twin_verdict": True,
+                                 "why": ["a contradiction appears only under a non-eager readiness schedule of the same scenario", b0["p"], b0["why"]]})
         if pid == "C20":
             for hb in hist_compare([j["trace"] for j in batches]):
                 hb["scn"] = hb["trace"].replace(".ndjson", ".scn")
@@ -300,7 +328,7 @@ def check_property(pid, tier, seed):
             if hit:
                 known_hits.append((hit[0], b))
                 continue
-            if not confirm(exes, text, pid, work):
+            if not confirm(exes, text, pid, work, eager_sid=b.get("ref_sid") if b.get("twin_verdict") else None):
                 raise MachineryError("violation of %s in scenario %s did not reproduce when run alone: %s" % (pid, b["sid"], json.dumps(b)[:400]))
             path = os.path.join(REPLAYS, "%s-%d-%s.scn" % (pid, seed, b["sid"]))
             open(path, "w").write(text)
@@ -383,6 +411,10 @@ def replay(pid, path):
         mine = [b for b in res["mon"]["bad"] if has_tag(b, pid)]
         if pid in ("C12", "C08"):
             mine += conf_compare([os.path.join(work, "replay.ndjson")])
+        if pid == "C12":
+            order = re.findall(r"^scenario (\d+)", open(path).read(), re.M)
+            if len(order) > 1 and twin_verdict(res, int(order[0])):
+                mine.append({"p": "C12", "why": "a contradiction appears only under a non-eager readiness schedule"})
         if pid == "C20":
             mine += hist_compare([os.path.join(work, "replay.ndjson")])
         print(json.dumps({"bad": res["mon"]["bad"], "drift": res["impl"]["drift"][:2]}, indent=1)[:4000])
